@@ -21,7 +21,7 @@ pub(crate) struct C18 {
     pub id: &'static str,
 }
 
-const TEMPLATES: &[&str] = &["nick_race_unreg", "first_join", "limit_slot", "oper_in_flight", "kick_part_nick", "msg_streams", "nick_race_reg", "invite_join", "password_reg_race", "mixed", "random", "random", "random", "random", "topic_mode_race", "kill_vs_leave", "leave_vs_nick_claim", "kill_vs_leave", "leave_vs_nick_claim"];
+const TEMPLATES: &[&str] = &["nick_race_unreg", "first_join", "limit_slot", "oper_in_flight", "kick_part_nick", "msg_streams", "nick_race_reg", "invite_join", "password_reg_race", "mixed", "random", "random", "random", "random", "topic_mode_race", "kill_vs_leave", "leave_vs_nick_claim", "kill_vs_leave", "leave_vs_nick_claim", "counter_race"];
 
 fn esc_lines(v: &[String]) -> String {
     v.join("\u{1e}")
@@ -62,7 +62,14 @@ impl Check for C18 {
         let mut r = Rng::new(run_seed);
         let mut cfg = SimConfig::default();
         cfg.operators.push(OperCfg { name: "root".into(), password: "rootpw".into(), mask: None });
-        let tmpl_pool: Vec<&str> = if self.id == "C02" { vec!["nick_race_unreg", "nick_race_reg", "password_reg_race", "nick_race_unreg"] } else { TEMPLATES.to_vec() };
+        // as a component of another property's check only the templates built around that property's objects are used
+        let tmpl_pool: Vec<&str> = match self.id {
+            "C02" => vec!["nick_race_unreg", "nick_race_reg", "password_reg_race", "nick_race_unreg"],
+            "C04" => vec!["kick_part_nick", "leave_vs_nick_claim", "first_join", "kill_vs_leave"],
+            "C01" => vec!["msg_streams", "kick_part_nick", "leave_vs_nick_claim", "msg_streams"],
+            "C19" => vec!["oper_in_flight", "kill_vs_leave", "counter_race", "limit_slot", "random", "counter_race"],
+            _ => TEMPLATES.to_vec(),
+        };
         let tmpl = tmpl_pool[(idx as usize) % tmpl_pool.len()];
         if tmpl == "password_reg_race" || r.chance(1, 6) {
             cfg.password = Some("srvpw".into());
@@ -150,6 +157,19 @@ impl Check for C18 {
                     scripts.push((regs[1], vec!["LUSERS".to_string(), format!("PRIVMSG {} :before or after s{}", nick_of(&g, regs[0]), num(&mut seqno)), "OPER root wrongpw".to_string()]));
                     if regs.len() >= 3 {
                         scripts.push((regs[2], vec![format!("WHOIS {}", nick_of(&g, regs[0])), "LUSERS".to_string()]));
+                    }
+                }
+            }
+            "counter_race" => {
+                // several updates of the same counters (operators, invisible users) in flight at once
+                if regs.len() >= 2 {
+                    let n0 = nick_of(&g, regs[0]);
+                    let n1 = nick_of(&g, regs[1]);
+                    scripts.push((regs[0], vec!["OPER root rootpw".to_string(), format!("MODE {} {}", n0, ["+i", "-o", "+w"][r.below(3)]), "LUSERS".to_string()]));
+                    scripts.push((regs[1], vec!["OPER root rootpw".to_string(), format!("MODE {} {}", n1, ["-o", "+i", "-i"][r.below(3)])]));
+                    if regs.len() >= 3 {
+                        let n2 = nick_of(&g, regs[2]);
+                        scripts.push((regs[2], vec![format!("MODE {} +i", n2), "OPER root rootpw".to_string(), format!("MODE {} -i", n2)]));
                     }
                 }
             }
